@@ -386,8 +386,79 @@ def in_body(ctx: Ctx, p: dict) -> None:
              classes=[f"n={len(still)}", p["entry"]])
 
 
+
+# ---------------------------------------------------------------------------------------------------------------
+# histories: the verdict on a section describes the files as they are NOW, whatever was checked before in the process
+# ---------------------------------------------------------------------------------------------------------------
+HIST_FIELDS = [("left", "img"), ("right", "img"), ("left", "mask"), ("right", "mask"), ("left", "classif"),
+               ("right", "segm"), ("left", "disp"), ("right", "disp")]
+
+
+def enumerate_hist(tier, shard, nshards):
+    n = 0
+    for side, field in HIST_FIELDS:
+        for order in ("missing-then-written", "present-then-deleted", "wrong-size-then-replaced"):
+            for entry in ("check_input_section", "check_conf"):
+                if n % nshards == shard:
+                    yield {"side": side, "field": field, "order": order, "entry": entry}
+                n += 1
+
+
+def hist_body(ctx: Ctx, p: dict) -> None:
+    import shutil
+
+    from pandora.check_configuration import check_conf, check_input_section
+    from pandora.state_machine import PandoraMachine
+
+    side, field, order, entry = p["side"], p["field"], p["order"], p["entry"]
+    cls = 2 if field == "disp" else 3
+    with files.scratch_dir("c17h") as d:
+        f, inp = write_base(d, cls)
+        good = inp[side][field]
+        late = os.path.join(d, f"late_{side}_{field}.tif")
+        inp[side][field] = late
+        # a file of another size for the same role (an image one column narrower, a mask / grid of another shape)
+        wrong = f["small_img"] if field == "img" else (f["grid_small"] if field == "disp" else f["small"])
+
+        def verdict():
+            user = {"input": copy.deepcopy(inp)}
+            try:
+                if entry == "check_conf":
+                    user["pipeline"] = {"matching_cost": {"matching_cost_method": "sad", "window_size": 3,
+                                                          **({"band": "r"} if cls == 3 else {})},
+                                        "disparity": {"disparity_method": "wta"}}
+                    check_conf(user, PandoraMachine())
+                else:
+                    check_input_section(user)
+                return True, None
+            except Exception as exc:  # noqa: BLE001
+                return False, exc
+
+        tag = f"{side}.{field} {order} entry={entry}"
+        if order == "missing-then-written":
+            states = [(None, False), (good, True)]
+        elif order == "present-then-deleted":
+            states = [(good, True), (None, False)]
+        else:
+            states = [(wrong, False), (good, True), (wrong, False)]
+        for i, (src, expected) in enumerate(states):
+            if os.path.exists(late):
+                os.remove(late)
+            if src is not None:
+                shutil.copyfile(src, late)
+            ok, err = verdict()
+            ctx.judged += 1
+            if ok and not expected:
+                ctx.violation("C17/malformed-input-accepted", f"{tag}: step {i} (file {'absent' if src is None else 'of another size'}) accepted")
+            if not ok and expected:
+                ctx.violation("C17/well-formed-input-refused", f"{tag}: step {i}, the file is now present and well-formed: "
+                                                               f"{type(err).__name__}: {str(err)[:120]}")
+    ctx.case(p, nontrivial=True, classes=[order, entry])
+
+
 CHECKS = [
     Check("datasets-exhaustive", ds_exhaustive_body, enumerate=enumerate_ds, exhaustive=True, budget={"quick": (4, 0), "thorough": (4, 0)}),
     Check("datasets-random", ds_random_body, strategy=ds_random_cases, budget={"quick": (4, 150), "thorough": (16, 1500)}),
+    Check("inputs-history", hist_body, enumerate=enumerate_hist, exhaustive=True, budget={"quick": (4, 0), "thorough": (4, 0)}),
     Check("inputs-exhaustive", in_body, enumerate=enumerate_in, exhaustive=True, budget={"quick": (8, 0), "thorough": (8, 0)}),
 ]
